@@ -784,7 +784,9 @@ mod x86_64 {
         #[inline]
         pub unsafe fn write(frame: PhysFrame, flags: ApicBaseFlags) {
             let (_, old_flags) = Self::read_raw();
-            let reserved = old_flags & !(ApicBaseFlags::all().bits());
+            // `read_raw` returns the whole register, so mask out the old base
+            // address (bits 12..52) in addition to the flags that are replaced.
+            let reserved = old_flags & !(ApicBaseFlags::all().bits()) & !0x000f_ffff_ffff_f000;
             let new_flags = reserved | flags.bits();
 
             unsafe {
